@@ -53,6 +53,16 @@ def check(run):
     socknull(R)
     C08.client(R, RID='C09.graceful')
     C08.eof(R, RID='C09.graceful')
+    from . import C15
+    R.rule('C09.hang', 'no hang after a failed or unanswered Close: the close time is recorded whenever close() was '
+                       'attempted and the close timeout fires when due', 3)
+    C15.close(R, RID='C09.hang')
+    proxyread(R)
+    from . import C16
+    R.rule('C09.persist', 'persist(): nothing can be raised out of the reconnecting iterator (the connection generator '
+                          'lets no exception out; the back-off arithmetic cannot overflow)', 10)
+    with R.as_rule('C09.persist'):
+        C16.check(R)
 
 
 def sites(R):
@@ -303,3 +313,23 @@ def socknull(R):
     ok = bool(cs) and all(all_paths_pass(g2, [g2.entry], cs, [s], skip_edge=nx) for s in st2)
     R.ob('C09.socknull', 'session.close() closes before nulling', ok, 'session.close() nulls _sock without _close_socket()', func=q2,
          node=None, construct='session.close')
+
+
+def proxyread(R, RID='C09.hang'):
+    """_connect_proxy: whatever recv() returned (including b'' = end of stream) is handed to the ProxyParser before the
+    next recv() or the return: EOF detection lives in Parser.feed (raises on empty data), so skipping the parser for an
+    empty read turns a proxy hang-up into an endless loop / a socket returned without a tunnel."""
+    q = S + '._connect_proxy'
+    g = R.cfg(q)
+    f = R.func(q)
+    rcv = [n for (n, _) in ext_calls(R, g, {'socket.recv'})]
+    need(len(rcv) == 1, '_connect_proxy: expected one recv call')
+    feeds = [n for n in g.live_nodes() if n.kind == 'forinit' and any(
+        isinstance(t, str) and t.startswith('gen:parser.Parser.feed') for t in R.types.expr(n.ast, g.ctx))]
+    need(len(feeds) >= 1, '_connect_proxy: proxy_parser.feed(data) not found')
+    rets = [r for r in g.live_nodes() if r.kind == 'stmt' and isinstance(r.ast, ast.Return)]
+    ok = all_paths_pass(g, normal_succs(rcv[0]), feeds, rcv + rets + [g.exit], skip_edge=nx)
+    R.ob(RID, 'every proxy read reaches the parser', ok,
+         'after sock.recv() in _connect_proxy the next recv() / the return can be reached without proxy_parser.feed(data): '
+         'an empty read (the proxy closed the connection) is not noticed', func=f, node=rcv[0].ast,
+         construct='proxy read skips the parser')
